@@ -46,6 +46,12 @@ func ConvertRequest(ctx *fasthttp.RequestCtx, r *http.Request, forServer bool) e
 		r.RequestURI = strRequestURI
 	}
 
+	if rURL.Host == "" && strings.HasPrefix(strRequestURI, "//") {
+		// An origin-form target starting with "//" has no authority:
+		// like net/http, take the host from the Host header only.
+		r.Host = b2s(ctx.Request.Header.Host())
+	}
+
 	if r.Header == nil {
 		r.Header = make(http.Header)
 	} else if len(r.Header) > 0 {
